@@ -590,7 +590,10 @@ func resolveDisableExp(r Exp, disable []Exp) ([]Exp, error) {
 			if v.Call != r.Call {
 				if inner, err := resolveDisableExp(v, nil); err != nil {
 					return disable, err
-				} else if len(inner) == 1 && inner[0] == Exp(v) {
+				} else if len(inner) == 1 && inner[0].getKind() == KindBool {
+					// Constant.
+					return resolveDisableExp(inner[0], disable)
+				} else if len(inner) > 0 {
 					return append(disable, r), nil
 				}
 			}
